@@ -14,14 +14,14 @@ inductive OpRes where
 
 variable [FOps]
 
-/-- precedenceOfKinds of vm.go: string > float > int, otherwise the left kind. -/
+/-- precedenceOfKinds of vm.go: string > float > anything else (a string or float on the right decides for every other left
+operand - integers, bool, nil), otherwise the left kind. -/
 def precedenceOfKinds (k1 k2 : Kind) : Kind :=
   if k1 = k2 then k1
   else match k1 with
     | .string => k1
     | .float64 => (match k2 with | .string => k2 | _ => k1)
-    | .int64 => (match k2 with | .string => k2 | .float64 => k2 | _ => k1)
-    | _ => k1
+    | _ => (match k2 with | .string => k2 | .float64 => k2 | _ => k1)
 
 def withInts (a b : Val) (f : I64 → I64 → OpRes) : OpRes :=
   match toInt64 a, toInt64 b with
